@@ -569,7 +569,9 @@ impl Compiler {
                 // typeof needs special handling for identifiers:
                 // typeof undeclaredVar should return "undefined", not throw ReferenceError
                 let src = self.builder.alloc_register()?;
-                if let Expression::Identifier(id) = &*unary.argument {
+                if let Expression::Identifier(id) = &*unary.argument
+                    && id.name.as_str() != "arguments"
+                {
                     // Use TryGetVar to get undefined for undeclared variables
                     let name_idx = self.builder.add_string(id.name.cheap_clone())?;
                     self.builder.emit(Op::TryGetVar {
